@@ -855,6 +855,17 @@ class Tr:
         if re.match(r'^<.*(IntoIter|Iter)<.*> as Iterator>::next$', callee):
             return ('List.tail', '', None), 'iter_next'
         if re.match(r'^<(String|std::string::String|u8|f64) as Clone>::clone$', callee): return av()[0], 'pure'
+        # lossless numeric conversions spelled with From/Into (clippy's cast_lossless style): the same as the `as` casts
+        m = re.match(r'^<(\w+) as (?:std::convert::)?From<(\w+)>>::from$', callee) or None
+        m2 = re.match(r'^<(\w+) as (?:std::convert::)?Into<(\w+)>>::into$', callee) or None
+        if m or m2:
+            dst, src = (m.group(1), m.group(2)) if m else (m2.group(2), m2.group(1))
+            UNS, SIG = ('u8', 'u16', 'u32', 'u64', 'usize'), ('i8', 'i16', 'i32', 'i64', 'isize')
+            if dst == 'f64' and src in UNS[:3]: return f'(Flt.ofNat {av()[0]})', 'pure'
+            if dst == 'f64' and src in SIG[:3]: return f'(Flt.ofInt {av()[0]})', 'pure'
+            if dst in UNS and src in UNS and UNS.index(src) <= UNS.index(dst): return av()[0], 'pure'
+            if dst in SIG and src in SIG and SIG.index(src) <= SIG.index(dst): return av()[0], 'pure'
+            if dst in SIG and src in UNS[:3]: return f'(Int.ofNat {av()[0]})', 'pure'
         # generic dictionary calls  <T as Into<Rgb>>::into
         m = re.match(r'^<(\w+) as (.*)>::(\w+)$', callee)
         if m and m.group(1) in self.tparams:
